@@ -2,7 +2,7 @@
     properties (C03 on the core fragment).  The statements are in [Engine/CoreSpec.v]. *)
 From QV Require Import Common.Prelude Engine.Model Engine.Core Engine.CoreSpec
   Engine.CoreInvBase Engine.CoreInvSem Engine.CoreInvMono Engine.CoreInvState
-  Engine.CoreInvRun Engine.CoreInvCommit.
+  Engine.CoreInvRun Engine.CoreInvCommit Engine.CoreInvProgress.
 Open Scope Z_scope.
 
 (** * well-formed programs have a strictly decreasing rank over all nodes *)
@@ -231,3 +231,344 @@ Proof.
   - apply run_nodup.
   - intros Hji Hi Hj. eapply run_once; eauto.
 Qed.
+
+(** * C03, "justified": a re-execution is caused by a dependency of the previous execution
+    whose from-scratch value has changed *)
+Lemma cpropagate_nodes : forall fuel s work s', cpropagate fuel s work = Ok s' -> cs_nodes s' = cs_nodes s.
+Proof.
+  induction fuel as [|f IH]; intros s work s' H; [discriminate|]. cbn [cpropagate] in H.
+  destruct work as [|x r]; [inversion H; reflexivity|].
+  destruct (nmem x (cs_visited s)); [eapply IH; eauto|].
+  destruct (cmark (cset_visited s (x :: cs_visited s)) x (ccallers (cset_visited s (x :: cs_visited s)) x) r)
+    as [s2 work'] eqn:Em.
+  apply cmark_spec in Em. destruct Em as (_ & B & _). apply IH in H. rewrite H, B. reflexivity.
+Qed.
+
+Lemma sess_fold_other : forall sets cur rs batch cur' rs' batch',
+  fold_left sess_step sets (cur, rs, batch) = (cur', rs', batch') ->
+  forall m, nkind m <> KInput -> cget cur' m = cget cur m.
+Proof.
+  induction sets as [|[v x] r IH]; intros cur rs batch cur' rs' batch' H m Hm; cbn [fold_left] in H.
+  - inversion H. reflexivity.
+  - rewrite sess_step_eq in H. rewrite (IH _ _ _ _ _ _ H m Hm). rewrite cset_input_cget.
+    destruct (node_eqb_spec (mkNode KInput v) m) as [<-|Hne]; [exfalso; apply Hm; reflexivity|reflexivity].
+Qed.
+
+Section Justify.
+Variable p : program.
+Variable rk : node -> nat.
+Hypothesis Hrk : forall n e d, alookup p n = Some e -> In d (expr_reads e) -> (rk d < rk n)%nat.
+Hypothesis Hkeys : forall n e, alookup p n = Some e -> nkind n = KNormal.
+
+Lemma cstep_keeps_info : forall fuel s o s' x m i,
+  cstep_f fuel p s o = (s', x) -> ~ In m (r_execs x) -> nkind m = KNormal -> cget s m = Some i ->
+  exists i', cget s' m = Some i' /\ c_fwd i' = c_fwd i /\ c_obs i' = c_obs i.
+Proof.
+  intros fuel s o s' x m i H Hm Hk Hi. destruct o as [sets b|n|w v|].
+  - rewrite cstep_session in H. cbv zeta in H.
+    destruct (fold_left sess_step sets (cset_ts (cset_log s []) (cs_ts (cset_log s []) + 1)%N, [], []))
+      as [[s1 rs] batch] eqn:Ef.
+    assert (E1 : cget s1 m = Some i).
+    { rewrite (sess_fold_other _ _ _ _ _ _ _ Ef m) by congruence. exact Hi. }
+    destruct (cpropagate (fuel * 10) (cset_visited (cset_stat s1 0%N) []) batch) as [s4| | |] eqn:Ep;
+      inversion H; subst; try (exists i; auto; fail).
+    exists i. split; [|auto]. unfold cget. rewrite (cpropagate_nodes _ _ _ _ Ep). exact E1.
+  - destruct (cstep_query_mono _ _ _ _ _ _ H) as [[-> _]|[HM E]]; [exists i; auto|].
+    destruct (mr_info _ _ _ HM m i Hi) as [i' [Hi' [[A B]|K]]]; [exists i'; auto|].
+    exfalso. apply Hm. rewrite E. apply in_rev. rewrite rev_involutive. exact K.
+  - cbn in H. inversion H. subst. exists i. auto.
+  - cbn in H. inversion H. subst. exists i. auto.
+Qed.
+
+Lemma ExecInfo_step : forall fuel s o s' x m inpm,
+  cstep_f fuel p s o = (s', x) -> ~ In m (r_execs x) ->
+  ExecInfo p inpm s m -> ExecInfo p inpm s' m.
+Proof.
+  intros fuel s o s' x m inpm H Hm [i [b (A & B & C)]].
+  destruct (cstep_keeps_info _ _ _ _ _ _ _ H Hm (Hkeys _ _ B) A) as [i' (A' & F & O)].
+  exists i', b. split; [exact A'|]. split; [exact B|]. rewrite F, O. exact C.
+Qed.
+
+Lemma cstep_query_logp : forall fuel s n s' x inp m,
+  CInv p inp s -> cstep_f fuel p s (OQuery n) = (s', x) -> In m (r_execs x) ->
+  Justified p inp s m /\ ExecInfo p inp s' m.
+Proof.
+  intros fuel s n s' x inp m HI H Hm. unfold cstep_f in H.
+  destruct (cquery p fuel [] CCUser None n (cset_log s [])) as [[[o fr] s1]| | |] eqn:Eq.
+  - pose proof (proj1 (just_all p rk Hrk fuel) inp [] CCUser None n _ o fr s1
+                  (CInv_log p inp s [] HI) (StkOk_nil rk n) Eq) as L.
+    assert (E : s' = s1 /\ r_execs x = rev (cs_log s1)) by (destruct o; inversion H; subst; auto).
+    destruct E as [-> E]. rewrite E in Hm. apply in_rev in Hm.
+    apply (L (cs_log s1)); [cbn [cset_log cs_log]; rewrite app_nil_r; reflexivity|exact Hm].
+  - inversion H. subst. destruct Hm.
+  - inversion H. subst. destruct Hm.
+  - inversion H. subst. destruct Hm.
+Qed.
+
+Lemma execs_query : forall fuel s o s' x m,
+  cstep_f fuel p s o = (s', x) -> In m (r_execs x) -> exists n, o = OQuery n.
+Proof.
+  intros fuel s o s' x m H Hm. destruct o as [sets b|n|w v|].
+  - rewrite cstep_session in H. cbv zeta in H.
+    destruct (fold_left sess_step sets (cset_ts (cset_log s []) (cs_ts (cset_log s []) + 1)%N, [], []))
+      as [[s1 rs] batch].
+    destruct (cpropagate (fuel * 10) (cset_visited (cset_stat s1 0%N) []) batch); inversion H; subst; destruct Hm.
+  - eauto.
+  - cbn in H. inversion H. subst. destruct Hm.
+  - cbn in H. inversion H. subst. destruct Hm.
+Qed.
+
+Definition fuelled_from (fuel : nat) (s : cstate) (ops : list op) (i : nat) : Prop :=
+  forall k sets b rk0, (k < i)%nat -> nth_error ops k = Some (OSession sets b) ->
+    nth_error (crun_history_f fuel p s ops) k = Some rk0 -> r_out rk0 <> RFuel.
+
+Lemma fuelled_from_tail : forall fuel s o rest s' x i,
+  cstep_f fuel p s o = (s', x) -> fuelled_from fuel s (o :: rest) (S i) -> fuelled_from fuel s' rest i.
+Proof.
+  intros fuel s o rest s' x i Es H k sets b rk0 Hk H1 H2. apply (H (S k) sets b rk0); [lia|exact H1|].
+  cbn [crun_history_f]. rewrite Es. exact H2.
+Qed.
+
+Lemma fuelled_from_head : forall fuel s o rest s' x i sets b,
+  cstep_f fuel p s o = (s', x) -> fuelled_from fuel s (o :: rest) (S i) -> o = OSession sets b -> r_out x <> RFuel.
+Proof.
+  intros fuel s o rest s' x i sets b Es H ->. apply (H 0%nat sets b x); [lia|reflexivity|].
+  cbn [crun_history_f]. rewrite Es. reflexivity.
+Qed.
+
+Lemma run_justified_from : forall fuel ops s inp inpm i m,
+  CInv p inp s -> ExecInfo p inpm s m -> fuelled_from fuel s ops i ->
+  executed_at (crun_history_f fuel p s ops) i m ->
+  (forall k, (k < i)%nat -> ~ executed_at (crun_history_f fuel p s ops) k m) ->
+  exists b d, alookup p m = Some b /\ srd p inpm b d /\
+    forall v, SpecI p inpm d v -> ~ SpecI p (fold_left apply_op (firstn (S i) ops) inp) d v.
+Proof.
+  intros fuel. induction ops as [|o rest IH]; intros s inp inpm i m HI HX Hfuel [r [Hr Hm]] Hno.
+  - destruct i; discriminate.
+  - cbn [crun_history_f] in Hr, Hno. destruct (cstep_f fuel p s o) as [s' x] eqn:Es. destruct i as [|i].
+    + cbn in Hr. inversion Hr. subst x. destruct (execs_query _ _ _ _ _ _ Es Hm) as [n ->].
+      destruct (cstep_query_logp _ _ _ _ _ _ _ HI Es Hm) as [J _].
+      destruct HX as [i0 [b (A & B & C)]]. destruct J as [J|[i1 [J1 (d & ov & v & D1 & D2 & D3 & D4)]]]; [congruence|].
+      assert (i1 = i0) by congruence. subst i1. destruct (C d D1) as [R [v' [O1 O2]]].
+      assert (v' = ov) by congruence. subst v'.
+      exists b, d. split; [exact B|]. split; [exact R|]. cbn [firstn fold_left apply_op].
+      intros w W1 W2. rewrite (SpecI_det _ _ _ _ _ W1 O2) in W2. apply D4. eapply SpecI_det; eauto.
+    + cbn [nth_error] in Hr.
+      assert (Hnx : ~ In m (r_execs x)).
+      { intro K. apply (Hno 0%nat); [lia|]. exists x. split; [reflexivity|exact K]. }
+      cbn [firstn fold_left].
+      apply (IH s' (apply_op inp o) inpm i m).
+      * eapply cstep_inv; eauto. intros sets b0 E. eapply fuelled_from_head; eauto.
+      * eapply ExecInfo_step; eauto.
+      * eapply fuelled_from_tail; eauto.
+      * exists r. auto.
+      * intros k Hk [rk0 [K1 K2]]. apply (Hno (S k)); [lia|]. exists rk0. auto.
+Qed.
+
+Lemma run_justified : forall fuel ops s inp j i m,
+  CInv p inp s -> fuelled_from fuel s ops i -> (j < i)%nat ->
+  executed_at (crun_history_f fuel p s ops) i m ->
+  executed_at (crun_history_f fuel p s ops) j m ->
+  (forall k, (j < k < i)%nat -> ~ executed_at (crun_history_f fuel p s ops) k m) ->
+  exists b d, alookup p m = Some b /\ srd p (fold_left apply_op (firstn (S j) ops) inp) b d /\
+    forall v, SpecI p (fold_left apply_op (firstn (S j) ops) inp) d v ->
+              ~ SpecI p (fold_left apply_op (firstn (S i) ops) inp) d v.
+Proof.
+  intros fuel. induction ops as [|o rest IH]; intros s inp j i m HI Hfuel Hji [ri [Hri Hmi]] [rj [Hrj Hmj]] Hno.
+  - destruct j; discriminate.
+  - cbn [crun_history_f] in Hri, Hrj, Hno. destruct (cstep_f fuel p s o) as [s' x] eqn:Es.
+    destruct i as [|i]; [lia|]. cbn [nth_error] in Hri.
+    assert (HI' : CInv p (apply_op inp o) s').
+    { eapply cstep_inv; eauto. intros sets b0 E. eapply fuelled_from_head; eauto. }
+    pose proof (fuelled_from_tail _ _ _ _ _ _ _ Es Hfuel) as Hfuel'.
+    destruct j as [|j].
+    + cbn in Hrj. inversion Hrj. subst x. destruct (execs_query _ _ _ _ _ _ Es Hmj) as [n ->].
+      destruct (cstep_query_logp _ _ _ _ _ _ _ HI Es Hmj) as [_ X].
+      cbn [firstn fold_left apply_op] in *.
+      apply (run_justified_from fuel rest s' inp inp i m HI' X Hfuel').
+      * exists ri. auto.
+      * intros k Hk [rk0 [K1 K2]]. apply (Hno (S k)); [lia|]. exists rk0. auto.
+    + cbn [nth_error] in Hrj. cbn [firstn fold_left].
+      apply (IH s' (apply_op inp o) j i m HI' Hfuel'); [lia|exists ri; auto|exists rj; auto|].
+      intros k Hk [rk0 [K1 K2]]. apply (Hno (S k)); [lia|]. exists rk0. auto.
+Qed.
+End Justify.
+
+Theorem C03_core_justified : C03_core_justified_statement.
+Proof.
+  intros fuel p ops i j m Hwf Hfuel. cbv zeta. intros Hi Hji Hj Hno.
+  destruct (wf_core_rank p Hwf) as [rk Hrk].
+  assert (Hkeys : forall n e, alookup p n = Some e -> nkind n = KNormal).
+  { intros n e He. apply alookup_In in He. apply (wf_keys p Hwf n e He). }
+  destruct (run_justified p rk Hrk Hkeys fuel ops cinit [] j i m (CInv_init p) Hfuel Hji Hi Hj Hno)
+    as [b [d (B & R & S)]].
+  exists d. split.
+  - eapply srd_Reads; eauto.
+  - intros v V1 V2. apply Spec_SpecI in V1. apply Spec_SpecI in V2. exact (S v V1 V2).
+Qed.
+
+(** * no panic *)
+Section NoPanic.
+Variable p : program.
+Variable rk : node -> nat.
+Hypothesis Hrk : forall n e d, alookup p n = Some e -> In d (expr_reads e) -> (rk d < rk n)%nat.
+Hypothesis Hnog : forall n e, alookup p n = Some e -> no_group e = true.
+Hypothesis Htargets : forall n e d, alookup p n = Some e -> In d (expr_reads e) ->
+  nkind d = KInput \/ (nkind d = KNormal /\ alookup p d <> None).
+
+(** the structural invariant is kept by every operation, whatever the fuel *)
+Lemma cstep_sinv : forall fuel s o s' r inp,
+  SInv p inp s -> cstep_f fuel p s o = (s', r) -> SInv p (apply_op inp o) s'.
+Proof.
+  intros fuel s o s' r inp HS H. destruct o as [sets b|n|w v|].
+  - rewrite cstep_session in H. cbv zeta in H.
+    destruct (fold_left sess_step sets (cset_ts (cset_log s []) (cs_ts (cset_log s []) + 1)%N, [], []))
+      as [[s1 rs] batch] eqn:Ef.
+    assert (HS1 : SInv p (apply_op inp (OSession sets b)) s1).
+    { cbn [apply_op]. eapply SInv_sess_fold; [|exact Ef]. eapply SInv_nodes; [|exact HS]. reflexivity. }
+    destruct (cpropagate (fuel * 10) (cset_visited (cset_stat s1 0%N) []) batch) as [s4| | |] eqn:Ep;
+      inversion H; subst; try (eapply SInv_nodes; [|exact HS1]; reflexivity).
+    eapply SInv_nodes; [|exact HS1]. rewrite (cpropagate_nodes _ _ _ _ Ep). reflexivity.
+  - unfold cstep_f in H. cbn [apply_op].
+    pose proof (proj1 (prog_all p rk Hrk Hnog Htargets inp fuel) [] CCUser None n (cset_log s [])
+                  (SInv_nodes p inp s (cset_log s []) eq_refl HS) (StkOk_nil rk n)) as P.
+    destruct (cquery p fuel [] CCUser None n (cset_log s [])) as [[[o fr] s1]| | |] eqn:Eq.
+    + destruct P as [HS1 _]. destruct o; inversion H; subst; exact HS1.
+    + inversion H. subst. eapply SInv_nodes; [|exact HS]. reflexivity.
+    + inversion H. subst. eapply SInv_nodes; [|exact HS]. reflexivity.
+    + inversion H. subst. eapply SInv_nodes; [|exact HS]. reflexivity.
+  - cbn in H. inversion H. subst. cbn [apply_op]. eapply SInv_nodes; [|exact HS]. reflexivity.
+  - cbn in H. inversion H. subst. cbn [apply_op]. eapply SInv_nodes; [|exact HS]. reflexivity.
+Qed.
+
+Lemma cstep_query_fine : forall fuel s n s' r inp,
+  SInv p inp s -> Cov p inp -> nkind n = KNormal -> alookup p n <> None ->
+  cstep_f fuel p s (OQuery n) = (s', r) ->
+  (exists z, r_out r = RValue z) \/ r_out r = RFuel.
+Proof.
+  intros fuel s n s' r inp HS Hc Hk Hp H. unfold cstep_f in H.
+  pose proof (proj1 (prog_all p rk Hrk Hnog Htargets inp fuel) [] CCUser None n (cset_log s [])
+                (SInv_nodes p inp s (cset_log s []) eq_refl HS) (StkOk_nil rk n)) as P.
+  destruct (cquery p fuel [] CCUser None n (cset_log s [])) as [[[o fr] s1]| | |] eqn:Eq.
+  - destruct P as [_ [i (_ & Ho & _)]]. subst o. inversion H. subst. left. eexists. reflexivity.
+  - inversion H. subst. right. reflexivity.
+  - exfalso. apply P. split; [exact Hc|]. right. auto.
+  - exfalso. apply P. split; [exact Hc|]. right. auto.
+Qed.
+
+Lemma run_no_panic : forall fuel ops s inp i n r,
+  SInv p inp s -> nth_error ops i = Some (OQuery n) -> nkind n = KNormal -> alookup p n <> None ->
+  nth_error (crun_history_f fuel p s ops) i = Some r ->
+  Cov p (fold_left apply_op (firstn i ops) inp) ->
+  (exists z, r_out r = RValue z) \/ r_out r = RFuel.
+Proof.
+  intros fuel. induction ops as [|o rest IH]; intros s inp i n r HS Hop Hk Hp Hres Hc.
+  - destruct i; discriminate.
+  - cbn [crun_history_f] in Hres. destruct (cstep_f fuel p s o) as [s' x] eqn:Es. destruct i as [|i].
+    + cbn in Hop, Hres, Hc. inversion Hop. inversion Hres. subst. eapply cstep_query_fine; eauto.
+    + cbn [nth_error firstn fold_left] in *.
+      apply (IH s' (apply_op inp o) i n r); auto. eapply cstep_sinv; eauto.
+Qed.
+End NoPanic.
+
+Theorem C01_core_no_panic : C01_core_no_panic_statement.
+Proof.
+  intros fuel p ops i n r Hwf Hop Hp Hres Hcov.
+  destruct (wf_core_rank p Hwf) as [rk Hrk].
+  assert (Hkeys : forall m e, alookup p m = Some e -> nkind m = KNormal /\ no_group e = true).
+  { intros m e He. apply alookup_In in He. apply (wf_keys p Hwf m e He). }
+  assert (Htargets : forall m e d, alookup p m = Some e -> In d (expr_reads e) ->
+            nkind d = KInput \/ (nkind d = KNormal /\ alookup p d <> None)).
+  { intros m e d He Hd. apply alookup_In in He. apply (wf_targets p Hwf m e d He Hd). }
+  assert (Hk : nkind n = KNormal).
+  { destruct (alookup p n) as [e|] eqn:Ee; [|congruence]. apply (Hkeys n e Ee). }
+  eapply (run_no_panic p rk Hrk (fun m e He => proj2 (Hkeys m e He)) Htargets fuel ops cinit [] i n r); eauto.
+  - apply SInv_init.
+  - intros m e d He Hd Kd. apply alookup_In in He. apply (Hcov m e d He Hd Kd).
+Qed.
+
+(** the guard on fuel is also needed for the justification of re-executions *)
+Definition cex3_prog : program :=
+  [ (mkNode KNormal 0, EAdd (ERead (mkNode KInput 0)) (ERead (mkNode KInput 1)));
+    (mkNode KNormal 1, EAdd (ERead (mkNode KNormal 0)) (ERead (mkNode KInput 2)));
+    (mkNode KNormal 2, ERead (mkNode KNormal 1)) ].
+Definition cex3_hist : list op :=
+  [OSession [(0%N, 1); (1%N, 1); (2%N, 0)] false; OQuery (mkNode KNormal 2);
+   OSession (cex_alt 110) false; OSession [(2%N, -1)] false; OQuery (mkNode KNormal 2)].
+
+Ltac wf_cases H := repeat (destruct H as [H|H]; [inversion H; subst; clear H|]); try destruct H.
+Ltac in_cases H := cbn in H; repeat (destruct H as [H|H]; [subst|]); try destruct H.
+
+Lemma cex3_prog_wf : wf_core cex3_prog.
+Proof.
+  split.
+  - intros n e H. wf_cases H; split; reflexivity.
+  - cbn. repeat constructor; cbn; intuition discriminate.
+  - intros n e d H Hd. wf_cases H; in_cases Hd; (left; reflexivity) || (right; split; [reflexivity|discriminate]).
+  - exists (fun n => N.to_nat (nidx n)). intros n e d H Hd K. wf_cases H; in_cases Hd; try discriminate K; cbn; lia.
+Qed.
+
+Theorem C03_core_justified_statement_unguarded_refuted : ~ C03_core_justified_statement_unguarded.
+Proof.
+  intro H.
+  specialize (H 20%nat cex3_prog cex3_hist 4%nat 1%nat (mkNode KNormal 2) cex3_prog_wf). cbv zeta in H.
+  assert (E : crun_history_f 20 cex3_prog cinit cex3_hist =
+              [mkRes (RSession [SFresh; SFresh; SFresh]) [] None;
+               mkRes (RValue 2) [mkNode KNormal 2; mkNode KNormal 1; mkNode KNormal 0] (Some 0%N);
+               mkRes RFuel [] None;
+               mkRes (RSession [SUpdated]) [] None;
+               mkRes (RValue 1) [mkNode KNormal 1; mkNode KNormal 2] (Some 2%N)]) by (vm_compute; reflexivity).
+  rewrite E in H. clear E.
+  destruct H as [d [[f [b [Hb Hd]]] Hv]].
+  - eexists. split; [reflexivity|]. right. left. reflexivity.
+  - lia.
+  - eexists. split; [reflexivity|]. left. reflexivity.
+  - intros k Hk [r [Hr Hm]]. assert (k = 2%nat \/ k = 3%nat) as [-> | ->] by lia; cbn in Hr; inversion Hr; subst; destruct Hm.
+  - cbn in Hb. inversion Hb. subst b.
+    assert (d = mkNode KNormal 1).
+    { destruct f as [|f]; [destruct Hd|]. cbn in Hd. destruct Hd as [<-|[]]. reflexivity. }
+    subst d. apply (Hv 2).
+    + exists 20%nat. vm_compute. reflexivity.
+    + exists 20%nat. vm_compute. reflexivity.
+Qed.
+
+(** * examples *)
+Definition ex_I (k : N) := mkNode KInput k.
+Definition ex_N (k : N) := mkNode KNormal k.
+(** N0 reads I1 or I2 depending on I0 (a conditional dependency); N1 can cut a change off *)
+Definition ex_prog : program :=
+  [ (ex_N 0, EIf (ELt (ERead (ex_I 0)) (EConst 10)) (ERead (ex_I 1)) (ERead (ex_I 2)));
+    (ex_N 1, EMod (EAdd (ERead (ex_N 0)) (ERead (ex_I 0))) 4);
+    (ex_N 2, EMul (ERead (ex_N 1)) (EConst 3)) ].
+
+Example ex_prog_wf : wf_core ex_prog.
+Proof.
+  split.
+  - intros n e H. wf_cases H; split; reflexivity.
+  - cbn. repeat constructor; cbn; intuition discriminate.
+  - intros n e d H Hd. wf_cases H; in_cases Hd; (left; reflexivity) || (right; split; [reflexivity|discriminate]).
+  - exists (fun n => N.to_nat (nidx n)). intros n e d H Hd K. wf_cases H; in_cases Hd; try discriminate K; cbn; lia.
+Qed.
+
+Definition ex_hist : list op :=
+  [ OSession [(0%N, 1); (1%N, 5); (2%N, 9)] false; OQuery (ex_N 2);
+    OSession [(1%N, 6)] false; OQuery (ex_N 2);          (* a value change *)
+    OSession [(1%N, 6)] false; OQuery (ex_N 2);          (* an unchanged write *)
+    OSession [(1%N, 5)] false; OQuery (ex_N 2);          (* a revert *)
+    OSession [(1%N, 9)] false; OQuery (ex_N 2);          (* cut off at N1: (9+1) mod 4 = (5+1) mod 4 *)
+    OSession [(0%N, 20)] false; OQuery (ex_N 2);         (* the condition flips: N0 now depends on I2 *)
+    OSession [(1%N, 0)] false; OQuery (ex_N 2) ].        (* I1 is no longer a dependency *)
+
+Example ex_run :
+  map (fun r => (r_out r, map nidx (r_execs r))) (crun_history ex_prog cinit ex_hist) =
+  [ (RSession [SFresh; SFresh; SFresh], []); (RValue 6, [2; 1; 0]%N);
+    (RSession [SUpdated], []);   (RValue 9, [0; 1; 2]%N);
+    (RSession [SUnchanged], []); (RValue 9, []);
+    (RSession [SUpdated], []);   (RValue 6, [0; 1; 2]%N);
+    (RSession [SUpdated], []);   (RValue 6, [0; 1]%N);
+    (RSession [SUpdated], []);   (RValue 3, [0; 1; 2]%N);
+    (RSession [SUpdated], []);   (RValue 3, []) ].
+Proof. vm_compute. reflexivity. Qed.
+
+Example ex_spec_last : Spec ex_prog (inputs_after ex_hist) (ex_N 2) 3.
+Proof. exists 10%nat. vm_compute. reflexivity. Qed.
